@@ -348,6 +348,147 @@ fn body_stars(n: usize) -> impl Fn(&Ch) -> Run + Sync + Send {
   }
 }
 
+/// Child-process entry (`dgmc c16-probe <json>`): builds the given files,
+/// prints each module's resolved export names and runs go-to-definition from
+/// every symbol. Runs in a process of its own because unbounded recursion in
+/// the subject ends in a stack overflow, which no in-process guard survives.
+pub fn probe_main(arg: &str) -> i32 {
+  let v: Value = serde_json::from_str(arg).expect("probe argument");
+  let files: Vec<(String, String)> = v["files"].as_array().unwrap().iter().map(|f| (f[0].as_str().unwrap().to_string(), f[1].as_str().unwrap().to_string())).collect();
+  let roots: Vec<String> = v["roots"].as_array().unwrap().iter().map(|r| r.as_str().unwrap().to_string()).collect();
+  let ch = Ch::new(vec![], false);
+  let Some((graph, analyzer)) = build_files(&files, &roots, &ch) else {
+    println!("{}", json!({"error": "build did not finish"}));
+    return 0;
+  };
+  let root = RootSymbol::new(&graph, &analyzer);
+  let mut out = serde_json::Map::new();
+  for r in &roots {
+    let u = url(r);
+    let Some(module) = root.module_from_specifier(&u) else {
+      out.insert(r.clone(), json!({"missing": true}));
+      continue;
+    };
+    let ex = module.exports(&root);
+    let names: Vec<String> = ex.resolved.keys().cloned().collect();
+    let mut definitions = 0usize;
+    let mut all: Vec<&Symbol> = module.symbols().collect();
+    all.sort_by_key(|s| format!("{:?}", s.symbol_id()));
+    for symbol in &all {
+      definitions += root.go_to_definitions_or_unresolveds(module, symbol).count();
+    }
+    // ... and from what each exported name lands on
+    for e in ex.resolved.values() {
+      let re = e.as_resolved_export();
+      if let Some(sym) = re.module.symbol(re.symbol_id) {
+        definitions += root.go_to_definitions_or_unresolveds(re.module, sym).count();
+      }
+    }
+    out.insert(r.clone(), json!({"exports": names, "definitions_or_unresolveds": definitions}));
+  }
+  println!("{}", Value::Object(out));
+  0
+}
+
+/// Re-export graphs that mix `export *` with named re-exports (directly and
+/// through an import), cycles included; every world runs in a child process.
+fn body_named_cycles(ch: &Ch) -> Run {
+  let mut run = Run::default();
+  const N: usize = 3;
+  // per module: 0 nothing, 1 own x, 2 `export { x } from`, 3 `import { x } from; export { x }`, 4 `export * from`, 5 own x + `export * from`
+  const SHAPES: [&str; 6] = ["nothing", "own x", "export { x } from", "import { x } from + export { x }", "export * from", "own x + export * from"];
+  let mut shape = [0usize; N];
+  let mut target = [0usize; N];
+  for i in 0..N {
+    shape[i] = ch.shape("module_shape", SHAPES.len());
+    if shape[i] >= 2 {
+      let others: Vec<usize> = (0..N).filter(|j| *j != i).collect();
+      target[i] = others[ch.shape("edge_target", others.len())];
+    }
+  }
+  let mut files = vec![];
+  for i in 0..N {
+    let j = target[i];
+    let src = match shape[i] {
+      0 => "export const other: number = 0;\n".to_string(),
+      1 => format!("export const x: number = {i};\n"),
+      2 => format!("export {{ x }} from \"./m{j}.ts\";\n"),
+      3 => format!("import {{ x }} from \"./m{j}.ts\";\nexport {{ x }};\n"),
+      4 => format!("export * from \"./m{j}.ts\";\n"),
+      _ => format!("export const x: number = {i};\nexport * from \"./m{j}.ts\";\n"),
+    };
+    files.push((format!("https://s/m{i}.ts"), src));
+  }
+  let roots: Vec<String> = files.iter().map(|(u, _)| u.clone()).collect();
+  // reference: the exported names of the ES rules (own and named exports are
+  // names of the module; a star brings the target's names except `default`;
+  // own names win; a cycle of stars adds nothing)
+  let mut names: Vec<BTreeSet<String>> = (0..N)
+    .map(|i| match shape[i] {
+      0 => ["other".to_string()].into_iter().collect(),
+      1 | 2 | 3 | 5 => ["x".to_string()].into_iter().collect(),
+      _ => BTreeSet::new(),
+    })
+    .collect();
+  loop {
+    let mut changed = false;
+    for i in 0..N {
+      if shape[i] >= 4 {
+        for a in names[target[i]].clone() {
+          changed |= names[i].insert(a);
+        }
+      }
+    }
+    if !changed {
+      break;
+    }
+  }
+  let case = json!({"sources": files, "shapes": shape.iter().map(|s| SHAPES[*s]).collect::<Vec<_>>()});
+  let arg = json!({"files": files, "roots": roots}).to_string();
+  let out = std::process::Command::new(std::env::current_exe().expect("own path")).arg("c16-probe").arg(&arg).output();
+  run.evals = 1;
+  let out = match out {
+    Ok(o) => o,
+    Err(e) => panic!("cannot start the probe process: {e}"), // a harness panic is a machinery error, not a verdict
+  };
+  if !out.status.success() {
+    let err = String::from_utf8_lossy(&out.stderr);
+    let tail: String = err.lines().rev().take(3).collect::<Vec<_>>().into_iter().rev().collect::<Vec<_>>().join(" | ");
+    run.violate(
+      if tail.contains("overflowed its stack") { "go-to-definition-or-exports-overflows-the-stack".to_string() } else { format!("symbol-analysis-aborts-the-process:{:?}", out.status.code()) },
+      format!("the probe process ended with {:?}: {tail}", out.status),
+      case.clone(),
+    );
+    run.state_key = hash_of(&format!("{shape:?}{target:?}"));
+    return run;
+  }
+  let got: Value = serde_json::from_slice(&out.stdout).unwrap_or(json!({"error": "unreadable probe output"}));
+  let mut outcome = vec![];
+  for i in 0..N {
+    let g = &got[&roots[i]];
+    let have: BTreeSet<String> = g["exports"].as_array().map(|a| a.iter().filter_map(|x| x.as_str().map(|s| s.to_string())).collect()).unwrap_or_default();
+    outcome.push(hash_of(&(have.clone(), g["definitions_or_unresolveds"].as_u64())));
+    if g["exports"].is_null() {
+      run.violate("module-has-no-symbol-table", format!("{}: {g}", roots[i]), case.clone());
+    } else if have != names[i] {
+      run.violate(
+        "resolved-exports-differ-from-es-rules:named",
+        format!("{}: resolved exports {have:?}, the ES rules give {:?}", roots[i], names[i]),
+        case.clone(),
+      );
+    }
+  }
+  let edges = shape.iter().filter(|s| **s >= 2).count();
+  run.count("worlds_with_a_cycle_through_all_three_modules", (edges == 3 && { let mut seen = [false; N]; let mut c = 0; for _ in 0..N { seen[c] = true; c = target[c]; } seen.iter().all(|b| *b) }) as u64);
+  run.state_key = hash_of(&format!("{shape:?}{target:?}"));
+  run.nontrivial = edges >= 2;
+  run.outcome_key = hash_of(&outcome);
+  if ch.describe() {
+    run.sample = Some(json!({"world": case, "probe": got}));
+  }
+  run
+}
+
 /// the symbol spec corpus
 fn body_corpus(ch: &Ch) -> Run {
   let mut run = Run::default();
@@ -396,6 +537,12 @@ pub fn prop(tier: Tier) -> Prop {
       Part { name: "stars", body: Box::new(body_stars(n)), modes: vec![Mode::Full], what: "all star re-export graphs" },
       Part { name: "trees", body: Box::new(body_trees(slots)), modes, what: "symbol tables of generated packages" },
       Part { name: "corpus", body: Box::new(body_corpus), modes: vec![Mode::Full], what: "tests/specs/symbols" },
+      Part {
+        name: "named-cycles",
+        body: Box::new(body_named_cycles),
+        modes: vec![Mode::Full],
+        what: "all re-export graphs over 3 modules where each module has nothing / its own x / `export { x } from` / `import { x } from` + `export { x }` / `export * from` / own x + `export * from` (cycles through named and star hops included); every world in a child process: exported names vs the ES rules, go-to-definition from every symbol and every export must return (a stack overflow or abort of the child is a violation)",
+      },
     ],
     termination_property: true,
     min_outcomes: 10,
